@@ -363,6 +363,9 @@ pub struct Conn {
     pub written: Vec<u8>,
     pub shutdown_at: Option<Ns>,
     pub refused: bool,
+    /// the peer has reset the connection (SO_LINGER 0 close) before the acceptor writes: accept
+    /// succeeds, every write fails with ECONNRESET
+    pub peer_reset: bool,
 }
 
 #[derive(Debug, Default)]
@@ -1133,6 +1136,10 @@ impl World {
     }
 
     pub fn tcp_connect(&mut self, src: SocketAddr, dst: SocketAddr) -> ConnId {
+        self.tcp_connect_opts(src, dst, false)
+    }
+
+    pub fn tcp_connect_opts(&mut self, src: SocketAddr, dst: SocketAddr, peer_reset: bool) -> ConnId {
         let id = self.conns.len();
         let group: Vec<usize> = self.listeners.iter().enumerate().filter(|(_, l)| !l.closed && l.addr.port() == dst.port() && (l.addr.ip() == dst.ip() || l.addr.ip().is_unspecified())).map(|(i, _)| i).collect();
         // a REUSEPORT group of listeners: the kernel picks one member per connection
@@ -1141,7 +1148,7 @@ impl World {
             1 => Some(group[0]),
             n => Some(group[self.choose(n as u32) as usize]),
         };
-        self.conns.push(Conn { src, dst, connected_at: self.now, accepted_at: None, accepted_by: None, written: Vec::new(), shutdown_at: None, refused: l.is_none() });
+        self.conns.push(Conn { src, dst, connected_at: self.now, accepted_at: None, accepted_by: None, written: Vec::new(), shutdown_at: None, refused: l.is_none(), peer_reset });
         self.record(Ev::TcpConnect { conn: id, src, dst, refused: l.is_none() });
         if let Some(l) = l {
             let now = self.now;
@@ -1190,6 +1197,11 @@ impl World {
         if self.conns[c].shutdown_at.is_some() {
             self.record(Ev::TcpWrite { conn: c, data: Rc::new(data.to_vec()), ok: false });
             return Err(io::Error::new(io::ErrorKind::BrokenPipe, "Broken pipe"));
+        }
+        if self.conns[c].peer_reset {
+            *self.fault_fired.entry("tcp_peer_reset").or_insert(0) += 1;
+            self.record(Ev::TcpWrite { conn: c, data: Rc::new(data.to_vec()), ok: false });
+            return Err(io::Error::new(io::ErrorKind::ConnectionReset, "Connection reset by peer (os error 104)"));
         }
         self.conns[c].written.extend_from_slice(data);
         self.record(Ev::TcpWrite { conn: c, data: Rc::new(data.to_vec()), ok: true });
